@@ -166,7 +166,9 @@ func (v *inputFieldDefaultInjectionVisitor) processObjectOrListInput(fieldType i
 	if !found {
 		return defaultValue, false, nil
 	}
-	if node.Kind == ast.NodeKindScalarTypeDefinition {
+	// only input objects have fields with default values; node.Ref of any other kind
+	// (scalar, enum) must not be used as an input object ref
+	if node.Kind != ast.NodeKindInputObjectTypeDefinition {
 		return defaultValue, false, nil
 	}
 	finalVal := defaultValue
